@@ -135,6 +135,58 @@ start: {
     brk
 }
 "#,
+    // 8: every expression-evaluating construct with a name that is shadowed (root, scope, macro argument)
+    r#".define segment { name = "a" start = $1000 }
+.define segment { name = "b" start = $2000 }
+.const seg = "a"
+.const n = 2
+.const base = $3000
+
+foo: {
+    .const seg = "b"
+    .const n = 3
+    .const base = $4000
+    .segment seg { lbl: nop }
+    .loop n { nop }
+    .if n == 3 { lda #n } else { lda #0 }
+    .align n * 2
+    lda base
+    .text "{seg}"
+}
+
+.macro put(seg, n) {
+    .segment seg { nop }
+    .loop n { inx }
+}
+
+put("a", 1)
+.segment seg { root_lbl: lda #n }
+lda foo.base
+.import * from "other.asm"
+"#,
+    // 9: the same shapes split over scopes that import, with a test and interpolated names
+    r#".import * as lib from "other.asm"
+.const which = "lo"
+.define segment { name = "lo" start = $0800 }
+.define segment { name = "hi" start = $c000 }
+outer: {
+    .const which = "hi"
+    inner: {
+        .segment which { in_hi: lda #1 }
+        .segment "{which}" { also_hi: rts }
+    }
+    .segment super.which { in_lo: lda #2 }
+}
+.segment which {
+    at_root: jsr lib.other_routine
+}
+.test "shadow" {
+    .const which = 7
+    lda #which
+    .assert cpu.a == which
+    brk
+}
+"#,
 ];
 
 pub const OTHER_VARIANTS: &[&str] = &[
